@@ -1012,16 +1012,33 @@ func (w *World) Cmd(name, args string, f func() error) *CmdRec {
 	w.mu.Lock()
 	w.Cmds = append(w.Cmds, rec)
 	w.mu.Unlock()
-	func() {
+	// The command runs in its own goroutine so that one that never returns (every command of the
+	// proxy is bounded by its timeouts: at most deploy timeout + drain timeout, a minute or so in
+	// these scenarios) does not hang the scenario: after three hours of virtual time it is recorded
+	// as such - monitors treat the text in Panic as a failure of the command - and the scenario
+	// goes on. The goroutine left behind makes the bubble panic at its end, which the driver reports too.
+	type outcome struct{ err, pan string }
+	done := make(chan outcome, 1)
+	go func() {
+		var o outcome
 		defer func() {
 			if p := recover(); p != nil {
-				rec.Panic = fmt.Sprint(p)
+				o.pan = fmt.Sprint(p)
 			}
+			done <- o
 		}()
 		if err := f(); err != nil {
-			rec.Err = err.Error()
+			o.err = err.Error()
 		}
 	}()
+	tm := time.NewTimer(3 * time.Hour)
+	defer tm.Stop()
+	select {
+	case o := <-done:
+		rec.Err, rec.Panic = o.err, o.pan
+	case <-tm.C:
+		rec.Panic = "the command never returned (still running after 3h of virtual time)"
+	}
 	w.mu.Lock()
 	rec.Ret, rec.Done = w.Now(), true
 	w.mu.Unlock()
